@@ -4,7 +4,7 @@ use communication::executor::Executor;
 use communication::querier::Querier;
 use mt::MtHelpers;
 use proc_macro2::TokenStream;
-use proc_macro_error::{emit_error, emit_warning};
+use proc_macro_error::{abort, emit_error, emit_warning};
 use quote::quote;
 use syn::{Ident, ItemTrait, TraitItem};
 
@@ -48,7 +48,7 @@ impl<'a> InterfaceInput<'a> {
             .iter()
             .any(|item| matches!(item, TraitItem::Type(ty) if ty.ident == Ident::new("Error", ty.ident.span())))
         {
-            emit_error!(
+            abort!(
                 item.ident.span(), "Missing `Error` type defined for trait.";
                 note = "Error is an error type returned by generated types dispatch function. Messages handling function have to return an error type convertible to this Error type.";
                 note = "A trait error type should be bound to implement `From<cosmwasm_std::StdError>`.";
